@@ -217,6 +217,20 @@ pub fn run_sweep(ctx: &Ctx, rep: &mut Report) {
                 }
             }
         }
+        // the same command with progress messages switched on (-v), two threads: same result
+        {
+            rep.evaluations += 1;
+            rep.nontrivial += 1;
+            cli::set_verbose(true);
+            let (code, out, tail) = run_cmd(cmd, &dir, &files, 2, ctx.seed);
+            cli::set_verbose(false);
+            if code != 0 {
+                rep.violate(format!("{cmd:?} n={n} verbose"), format!("{cmd:?} with {n} samples: -v --threads 2 fails with exit {code} although the quiet single-threaded run succeeds: {tail}"), json!({"cmd": format!("{cmd:?}"), "n": n, "threads": 2, "verbose": true}));
+            } else if out != base_out {
+                rep.violate(format!("{cmd:?} n={n} verbose output"), format!("{cmd:?} with {n} samples: -v --threads 2 gives a different result than the quiet --threads 1 run"), json!({"cmd": format!("{cmd:?}"), "n": n, "threads": 2, "verbose": true}));
+            }
+            rep.corner("verbose_run");
+        }
         rep.corner(&format!("{cmd:?}"));
         let _ = base_tail;
     }
